@@ -771,27 +771,51 @@ def r18_error_term_interval_is_closed(ck, P, rid='C12-R18'):
                     NEs.add(y.i)
         if not NEs:
             raise AnalysisBroken('%s: the advanced error term of pixman_edge_step was not recognised' % rid)
-        def is_neg_dy(o):
-            y = f.v(f.strip_casts(o)) if o[0] == 'v' else None
-            if y is None or y.op != 'sub' or not (y.a[0][0] == 'c' and int(y.a[0][1]) == 0):
-                return False
-            z = f.v(f.strip_casts(y.a[1]))
-            return z is not None and z.op == 'load' and f.last_field(f.path(z.a[0])) == 'pixman_edge.dy'
+        def lin(o, d=0):
+            """value as {'NE': k, 'DY': k, 1: k} or None"""
+            if o[0] == 'c':
+                return {1: int(o[1])}
+            y = f.v(o) if o[0] == 'v' else None
+            if y is None or d > 8:
+                return None
+            if y.i in NEs:
+                return {'NE': 1}
+            if y.op in ('sext', 'zext', 'trunc'):
+                return lin(y.a[0], d + 1)
+            if y.op == 'load' and f.last_field(f.path(y.a[0])) == 'pixman_edge.dy':
+                return {'DY': 1}
+            if y.op in ('add', 'sub'):
+                l, r = lin(y.a[0], d + 1), lin(y.a[1], d + 1)
+                if l is None or r is None:
+                    return None
+                out = dict(l)
+                for k_, v_ in r.items():
+                    out[k_] = out.get(k_, 0) + (v_ if y.op == 'add' else -v_)
+                return {k_: v_ for k_, v_ in out.items() if v_}
+            return None
         for b in f.blocks:
             t = b.term
             if t.op != 'br' or not t.a:
                 continue
             c, p, ops = f.cond(t.a[0])
-            if c is None or c.op != 'icmp' or len(ops) != 2:
+            if c is None or c.op != 'icmp' or len(ops) != 2 or p not in ('slt', 'sgt', 'sle', 'sge'):
                 continue
             sw = {'slt': 'sgt', 'sgt': 'slt', 'sle': 'sge', 'sge': 'sle'}
-            a0, a1 = ops
-            if a1[0] == 'v' and a1[1] in NEs:
-                a0, a1 = a1, a0; p = sw.get(p, p)
-            if not (a0[0] == 'v' and a0[1] in NEs):
+            l, r = lin(ops[0]), lin(ops[1])
+            if l is None or r is None:
                 continue
-            end = 'zero' if (a1[0] == 'c' and int(a1[1]) == 0) else 'neg_dy' if is_neg_dy(a1) else None
-            if end is None:
+            D = dict(l)
+            for k_, v_ in r.items():
+                D[k_] = D.get(k_, 0) - v_
+            D = {k_: v_ for k_, v_ in D.items() if v_}
+            if D.get('NE') == -1:
+                D = {k_: -v_ for k_, v_ in D.items()}; p = sw[p]
+            # D (p) 0 with D = NE  or  D = NE + DY
+            if D == {'NE': 1}:
+                end = 'zero'
+            elif D == {'NE': 1, 'DY': 1}:
+                end = 'neg_dy'
+            else:
                 continue
             n += 1
             where = '%s: test of the error term against %s at %s' % (f.name, '0' if end == 'zero' else '-dy', t.loc())
